@@ -80,7 +80,13 @@ def strategy_case(draw):
     # are submitted just before the probe - what the cycle learns from their
     # failures must not rule out the probe
     skew = draw(st.sampled_from([False, False, False, True]))
-    return dict(case, probe=probe, probe_fit=fit, probe_skew=skew)
+    # a probe that declares limits of its own (the same values at other
+    # levels) under an affinity name other instances use: C02 quantifies over
+    # all probe instances; nothing but the probe deviates from the shared
+    # limits, so the other checks' domains are untouched
+    relimit = draw(st.sampled_from([None, None, None, 1, 2, 3]))
+    return dict(case, probe=probe, probe_fit=fit, probe_skew=skew,
+                probe_relimit=relimit)
 
 
 def strategy(tier):
@@ -245,6 +251,15 @@ def execute(case, stats):
                 big[3][dim] = 10 ** 7
                 sim.apply(big)
             stats.count('probe_skewed_company')
+        if case.get('probe_relimit') and not e2 and len(probe_op) == 10:
+            aff = sim.affs[probe_op[2] % len(sim.affs)]
+            levels = list(gen.LEVELS)
+            shift = case['probe_relimit']
+            moved = {levels[(levels.index(level) + shift) % len(levels)]: lim
+                     for level, lim in sorted(aff['limits'].items())}
+            if moved and moved != aff['limits']:
+                probe_op = probe_op + [moved]
+                stats.count('probe_own_limits')
         names = sim.apply(probe_op)
         probe = names[0] if isinstance(names, list) else names
         if e2:
